@@ -153,6 +153,19 @@ if let Some(enc) = Encoding::for_label(
 
 //@@ item src/parsing/response_reader.rs struct ResponseReader vis=pub
 //@@ end
+/// `crate::parsing::TextReader<BufReader<ResponseReader>>` (src/parsing/text_reader.rs wraps encoding_rs_io::DecodeReaderBytes): opaque here;
+/// what is decided is which charset and which source it is built over
+#[verifier::external_body] #[verifier::reject_recursive_types(R)] pub struct TextReader<R>(std::marker::PhantomData<R>);
+pub uninterp spec fn tr_charset<R>(t: &TextReader<R>) -> Charset;
+pub uninterp spec fn tr_source(t: &TextReader<BufReader<ResponseReader>>) -> ResponseReader;
+/// what reading `src` to its end and decoding it with `cs` yields (lossy; encoding_rs_io, assumed)
+pub uninterp spec fn decoded_text(cs: Charset, src: ResponseReader) -> Seq<char>;
+/// `TextReader::new(BufReader::new(reader), charset)`
+#[verifier::external_body] pub fn vp_text_reader_new(reader: ResponseReader, charset: Charset) -> (r: TextReader<BufReader<ResponseReader>>)
+    ensures tr_charset(&r) == charset, tr_source(&r) == reader { unimplemented!() }
+/// `reader.read_to_string(&mut text)` on a TextReader (assumed: encoding_rs_io decodes the whole source with the reader's charset)
+#[verifier::external_body] pub fn vp_text_read_to_string(t: &mut TextReader<BufReader<ResponseReader>>, text: &mut String) -> (r: io::Result<usize>)
+    ensures r is Ok ==> final(text)@ == old(text)@ + decoded_text(tr_charset(old(t)), tr_source(old(t))) { unimplemented!() }
 
 impl ResponseReader {
     pub closed spec fn sp_inner(&self) -> CompressedReader { self.inner }
@@ -214,6 +227,32 @@ vp_utf8_or_lossy(buf)
                 &&& (!b0.owed().1 ==> res is Err) // id: incomplete_body_makes_text_utf8_fail [C02]
                 &&& (b0.owed().1 && b0.ff() ==> true)
             }),
+//@@ end
+
+// ---- text: which charset reaches the decoder (the decoding itself is encoding_rs_io's and stays assumed / natively checked)
+//@@ fn src/parsing/response_reader.rs impl~ResponseReader text_reader_with props=C18
+//@@ rw R1
+TextReader::new(BufReader::new(self), charset)
+//@@ =>
+vp_text_reader_new(self, charset)
+//@@ contract
+        ensures tr_charset(&res) == charset && tr_source(&res) == self, // id: explicit_charset_reaches_the_decoder [C18]
+//@@ end
+//@@ fn src/parsing/response_reader.rs impl~ResponseReader text_reader props=C18
+//@@ contract
+        ensures tr_charset(&res) == self.sp_charset() && tr_source(&res) == self, // id: selected_charset_reaches_the_decoder [C18]
+//@@ end
+//@@ fn src/parsing/response_reader.rs impl~ResponseReader text_with props=C18
+//@@ method R1
+read_to_string
+//@@ =>
+vp_text_read_to_string(&mut @@RECV, @@ARGS)
+//@@ contract
+        ensures res matches Ok(s) ==> s@ == decoded_text(charset, self), // id: explicit_charset_ignores_header_and_default [C18]
+//@@ end
+//@@ fn src/parsing/response_reader.rs impl~ResponseReader text attr=feature~=~"charsets" props=C18
+//@@ contract
+        ensures res matches Ok(s) ==> s@ == decoded_text(self.sp_charset(), self), // id: text_decodes_with_the_selected_charset [C18]
 //@@ end
 
 //@@ fn src/parsing/response_reader.rs impl~Read~for~ResponseReader read props=C01,C02
@@ -390,6 +429,22 @@ writer: &mut W
                 &&& (res matches Ok(n) ==> b0.owed().1 && n == b0.owed().0.len() && (*final(writer)).sent() == (*old(writer)).sent() + b0.owed().0) // id: write_to_copies_exactly_the_framed_payload [C01]
                 &&& (!b0.owed().1 ==> res is Err) // id: incomplete_body_makes_write_to_fail [C02]
             }),
+//@@ end
+//@@ fn src/parsing/response.rs impl~Response text props=C18
+//@@ contract
+        ensures res matches Ok(s) ==> s@ == decoded_text(self.sp_reader().sp_charset(), self.sp_reader()), // id: text_decodes_with_the_selected_charset [C18]
+//@@ end
+//@@ fn src/parsing/response.rs impl~Response text_with props=C18
+//@@ contract
+        ensures res matches Ok(s) ==> s@ == decoded_text(charset, self.sp_reader()), // id: explicit_charset_ignores_header_and_default [C18]
+//@@ end
+//@@ fn src/parsing/response.rs impl~Response text_reader props=C18
+//@@ contract
+        ensures tr_charset(&res) == self.sp_reader().sp_charset() && tr_source(&res) == self.sp_reader(), // id: selected_charset_reaches_the_decoder [C18]
+//@@ end
+//@@ fn src/parsing/response.rs impl~Response text_reader_with props=C18
+//@@ contract
+        ensures tr_charset(&res) == charset && tr_source(&res) == self.sp_reader(), // id: explicit_charset_reaches_the_decoder [C18]
 //@@ end
 //@@ fn src/parsing/response.rs impl~Response text_utf8 props=C01,C02,C18
 //@@ contract
